@@ -187,7 +187,25 @@ func mutateMsg(m sdk.Msg, k, arg int) sdk.Msg {
 		}
 	case *goatmodtypes.MsgNewEthBlock:
 		p := x.Payload
-		switch k % 16 {
+		switch k % 19 {
+		case 16:
+			// no transactions at all although system transactions are due; the count byte says 0
+			p.Transactions = nil
+			if len(p.ExtraData) > 0 {
+				p.ExtraData = append([]byte{0}, p.ExtraData[1:]...)
+			}
+		case 17:
+			// one due system transaction fewer, count byte adjusted
+			if len(p.ExtraData) > 0 && p.ExtraData[0] > 0 && len(p.Transactions) > 0 {
+				i := arg % int(p.ExtraData[0])
+				p.Transactions = append(append([][]byte{}, p.Transactions[:i]...), p.Transactions[i+1:]...)
+				p.ExtraData = append([]byte{p.ExtraData[0] - 1}, p.ExtraData[1:]...)
+			}
+		case 18:
+			// the list is cut below the count byte
+			if len(p.Transactions) > 0 {
+				p.Transactions = p.Transactions[:len(p.Transactions)-1-arg%len(p.Transactions)]
+			}
 		case 1:
 			x.Payload = nil
 		case 2:
@@ -279,6 +297,18 @@ func runTxMutCase(c TxMutCase) Outcome {
 			return o
 		}
 		relProp := f.memberAcc(rv.Proposer)
+		if abs(tm.Base)%len(baseNames) == 10 {
+			// make system transactions due in the block whose message is mutated: two refunds of undecodable addresses
+			br := goattypes.BridgeRequests{}
+			for j := 0; j < 2; j++ {
+				id := uint64(5000 + 2*ti + j)
+				br.Withdraws = append(br.Withdraws, &goattypes.WithdrawalRequest{Id: id, Amount: 5000, TxPrice: 2, Address: fmt.Sprintf("garbage-%d", id)})
+			}
+			if _, err := sim.Step(world.StepOpts{DT: time.Second, Proposer: -1, Eth: world.EthBlockOpts{Plan: world.BuildPlan{Requests: br.Encode()}}}); err != nil {
+				o.Fail = failf("block-processing", "block-failed", "%v", err)
+				return o
+			}
+		}
 		blk, ethTxs, err := sim.Begin(world.StepOpts{DT: 5 * time.Second, Proposer: -1})
 		if err != nil {
 			o.Fail = failf("fixture", "begin-failed", "%v", err)
@@ -434,7 +464,7 @@ func TestC19_TxMutation(t *testing.T) {
 				tm := TxMut{Base: int(mix64(rapid.Uint64().Draw(t, "base")) % uint64(len(baseNames))), Arg: rapid.IntRange(0, 1<<16).Draw(t, "arg"),
 					Mode: rapid.SampledFrom([]int{0, 1, 2, 3, 3, 3}).Draw(t, "mode")}
 				if rapid.IntRange(0, 4).Draw(t, "structural") > 0 {
-					tm.Mut = 1 + int(mix64(rapid.Uint64().Draw(t, "mut"))%15)
+					tm.Mut = 1 + int(mix64(rapid.Uint64().Draw(t, "mut"))%18)
 				}
 				if rapid.IntRange(0, 3).Draw(t, "bytes") == 0 {
 					tm.ByteMut = rapid.IntRange(1, 5).Draw(t, "byteMut")
@@ -445,7 +475,7 @@ func TestC19_TxMutation(t *testing.T) {
 			return c
 		},
 		Run:  runTxMutCase,
-		Rule: "on a live chain with pending and processing withdrawals: a well-formed message of each of the 11 relayer/bridge/block message types receives one structural mutation (nil vote / key / payload, bitmap lengths 1..255, signature lengths 0..96, nil and mis-sized list elements, over-long lists, garbage Bitcoin transactions and headers, mis-sized hashes and addresses, extreme integers, malformed request lists, count byte 255) and/or a byte-level mutation of the signed transaction (truncate, bit flip, append, random bytes, repeated chunk) and is delivered through CheckTx, ProcessProposal (as a later and as the first transaction) or FinalizeBlock; the process must stay alive (write-ahead case file), every call must return, FinalizeBlock must not fail in that block nor in the following ones, and a transaction with a non-zero code must leave the four module stores identical to the twin execution without it; non-trivial = the input passed decoding and reached a handler (or was applied); evaluations count inputs",
+		Rule: "on a live chain with pending and processing withdrawals: a well-formed message of each of the 11 relayer/bridge/block message types receives one structural mutation (nil vote / key / payload, bitmap lengths 1..255, signature lengths 0..96, nil and mis-sized list elements, over-long lists, garbage Bitcoin transactions and headers, mis-sized hashes and addresses, extreme integers, malformed request lists, count byte 255, due system transactions dropped / the list cut below the count byte while refunds are due) and/or a byte-level mutation of the signed transaction (truncate, bit flip, append, random bytes, repeated chunk) and is delivered through CheckTx, ProcessProposal (as a later and as the first transaction) or FinalizeBlock; the process must stay alive (write-ahead case file), every call must return, FinalizeBlock must not fail in that block nor in the following ones, and a transaction with a non-zero code must leave the four module stores identical to the twin execution without it; non-trivial = the input passed decoding and reached a handler (or was applied); evaluations count inputs",
 	})
 }
 
